@@ -849,7 +849,24 @@ class Exec:
                         raise Unsupported("attribute %s.%s first assigned in a cut loop (declare loop_kinds)" % (b, attr))
                     o.fields[attr] = {"real": self.real, "int": self.int, "bool": self.bool}[kind](attr)
         kk = self.int("k") if seq is not None else None
+        reshaped = dict(getattr(c, "loop_reshaped", {}).get(k, {}))
         which = self.choose([None, None, None])  # 0: arbitrary iteration, 1: exit, 2: peeled first iteration
+        if reshaped and which == 1 and seq is not None and self.choose([None, None]) == 1:
+            # exit after ZERO iterations: the entry state itself (the invariant cut below speaks about the representation after >= 1 iterations)
+            self.restore_env(fr, pre, mods, heap_mods, attr_mods)
+            for d_, k_, v_ in saved_entries:
+                d_[k_] = v_
+            self.assume(z(seq.length) <= 0)
+            if not self.feasible(z3.BoolVal(True) if not self.pc else self.pc[-1]):
+                raise PathEnd("infeasible")
+            self.exec_block(st.orelse, fr)
+            return
+        if reshaped and which in (0, 1):
+            if seq is None:
+                raise Unsupported("loop_reshaped on a while loop")
+            for nme, kind in sorted(reshaped.items()):
+                fr.locals[nme] = self.fresh_of_kind(nme, kind)
+            self.assume(kk >= 1 if which == 0 else z(seq.length) >= 1)
         if which == 2:
             # the first iteration from the real entry state (no havoc): its safety obligations, unbound
             # locals, writes through aliases of the entry state.  Ends after one body execution.
@@ -863,10 +880,28 @@ class Exec:
             else:
                 if not self.truth(self.eval(st.test, fr), st.test):
                     raise PathEnd("guard-false")
+            brk0 = False
             try:
                 self.exec_block(st.body, fr)
-            except (_Break, _Continue):
+            except _Break:
+                brk0 = True
+            except _Continue:
                 pass
+            if reshaped and not brk0:
+                # the representation of some variables after the first iteration differs from the one at loop entry (declared: loop_reshaped):
+                # the arbitrary iteration starts from the later representation, so the step from the entry state is proved here
+                if seq is None:
+                    raise Unsupported("loop_reshaped on a while loop")
+                for nme, kind in sorted(reshaped.items()):
+                    now = self._repr_class(self.lookup_local(nme, fr))
+                    if now != self._repr_class(self.fresh_of_kind(nme, kind)):
+                        raise Unsupported("loop #%s of %s: %s is %s after the first iteration, not what loop_reshaped declares" % (k, f.key, nme, now))
+                L.k = 1
+                L.bind_index(1)
+                for name, g in self.eval_invariant(inv, L, k).items():
+                    self.oblige("%s.%s.inv-step.%s" % (self.prop, lid, name), g, "inv-step", st)
+                    if c.sequential:
+                        self.assume(g)
             self.at_path_cut("first-iteration")
             raise PathEnd("first-iteration")
         declared = dict(self._loop_kinds)
@@ -889,6 +924,7 @@ class Exec:
                 if not self.truth(self.eval(st.test, fr), st.test):
                     raise PathEnd("guard-false")
             brk = False
+            head_repr = {nme: self._repr_class(self.lookup_local(nme, fr)) for nme in mods}
             try:
                 self.exec_block(st.body, fr)
             except _Break:
@@ -897,6 +933,13 @@ class Exec:
                 pass
             if brk:
                 return                          # continue after the loop with the state at the break
+            for nme in sorted(mods):
+                # the arbitrary iteration started from a havoced value of the SAME representation as at loop entry (rank and kind of an array,
+                # integer / real / ... of a scalar): a loop that changes the representation from one iteration to the next is not covered by it
+                was, now = head_repr.get(nme), self._repr_class(self.lookup_local(nme, fr))
+                if was is not None and now is not None and was != now:
+                    raise Unsupported("loop #%s of %s: %s is %s at the start of an iteration and %s at the end of it (the invariant cut assumes "
+                                      "one representation per variable)" % (k, f.key, nme, was, now))
             if seq is not None:
                 L.k = kk + 1
                 L.bind_index(kk + 1)
@@ -934,6 +977,22 @@ class Exec:
                 if self.truth(self.eval(st.test, fr), st.test):
                     raise PathEnd("guard-true-at-exit")
             self.exec_block(st.orelse, fr)
+
+    def _repr_class(self, v):
+        """what the havoc of a loop cut keeps of a value: None when nothing is fixed (unbound, None, objects, ...)"""
+        if isinstance(v, NdArr):
+            return "a %d-d %s array" % (v.ndim, v.kind)
+        if isinstance(v, bool) or (is_sym(v) and z3.is_bool(v)):
+            return "a boolean"
+        if isinstance(v, (Unbound, HavocNone)) or v is None or v is _MISSING:
+            return None
+        if is_int_like(v):
+            return "an integer"
+        if is_real_like(v):
+            return "a real number"
+        if is_str_like(v):
+            return "a string"
+        return None
 
     def fresh_of_kind(self, n, kind):
         if isinstance(kind, tuple) and kind[0] == "nd":
